@@ -53,7 +53,7 @@ theorem request_spec {s s' : S} {op pid : Nat} {k : Kind} {dup : Bool} {body : N
     ((s.slot pid = none ∧ s.pidOf op = none ∧ dup = false ∧
         s' = { s with slot := upd s.slot pid (some { op := op, kind := k, n := n, phase := .writing, body := body }),
                       pidOf := upd s.pidOf op (some pid), bodyOf := upd s.bodyOf op (some body) }) ∨
-     (∃ sl, s.slot pid = some sl ∧ sl.op = op ∧ sl.body = body ∧ (sl.okBefore = true → dup = true) ∧
+     (∃ sl, s.slot pid = some sl ∧ sl.op = op ∧ s.bodyOf op = some body ∧ (sl.okBefore = true → dup = true) ∧
         (sl.phase = .idle ∨ sl.phase = .waiting) ∧
         s' = { s with slot := upd s.slot pid (some { sl with phase := .writing, fast := none }) })) := by
   unfold request at h
@@ -203,6 +203,10 @@ theorem onWrFail_op (sl : Slot) : sl.onWrFail.op = sl.op := by
   unfold Slot.onWrFail; repeat' split
   all_goals rfl
 
+theorem onConnUp_op (sl : Slot) : sl.onConnUp.op = sl.op := by
+  unfold Slot.onConnUp; repeat' split
+  all_goals rfl
+
 theorem onRx_op (sl : Slot) (a : Ack) : (sl.onRx a).op = sl.op := by
   unfold Slot.onRx; repeat' split
   all_goals first | rfl | exact consume_op _ _
@@ -240,7 +244,10 @@ theorem step_owner {s s' : S} {e : Ev} (h : step s e = some s') : OwnerStep s s'
     · simp at h
     · simp only [Option.some.injEq] at h; subst h
       exact .sameOf rfl rfl (fun _ => rfl) (fun _ h => h) (by intro pk he; cases he)
-  | connUp rm => simp only [step, Option.some.injEq] at h; subst h; exact .sameOf rfl rfl (fun _ => rfl) (fun _ h => h) (by intro pk he; cases he)
+  | connUp rm =>
+    simp only [step, Option.some.injEq] at h; subst h
+    refine .sameOf rfl rfl ?_ (fun _ h => h) (by intro pk he; cases he)
+    intro q; simp only [owner]; cases s.slot q <;> simp [onConnUp_op]
   | connDown => simp only [step, Option.some.injEq] at h; subst h; exact .sameOf rfl rfl (fun _ => rfl) (fun _ h => h) (by intro pk he; cases he)
   | wr =>
     simp only [step] at h; split at h
